@@ -127,3 +127,66 @@ def get_units(case):
         mp.get("outlier_z_threshold", 2.0),
         p["aggregates"],
     )
+
+
+class SolverCapture:
+    """Wraps elexsolver.QuantileRegressionSolver.fit/predict from the outside (no change to /repo).
+
+    records: list of dicts {"op": "fit"|"predict", ...}; stub(op, index, args, real_result) may replace a predict result;
+    fault(fit_index, kwargs) may raise to inject a solver failure."""
+
+    def __init__(self, stub=None, fault=None, keep_arrays=True):
+        self.records = []
+        self.stub = stub
+        self.fault = fault
+        self.keep = keep_arrays
+        self.n_fit = 0
+        self.n_pred = 0
+
+    def __enter__(self):
+        _imp()
+        from elexsolver.QuantileRegressionSolver import QuantileRegressionSolver as Q
+
+        self.Q = Q
+        self.orig_fit = Q.fit
+        self.orig_predict = Q.predict
+        cap = self
+
+        def fit(slf, x, y, *args, **kwargs):
+            i = cap.n_fit
+            cap.n_fit += 1
+            rec = {"op": "fit", "i": i, "kwargs": {k: (v if not hasattr(v, "shape") else None) for k, v in kwargs.items()}, "nargs": len(args),
+                   "n": int(np.asarray(x).shape[0]), "p": int(np.asarray(x).shape[1]) if np.asarray(x).ndim > 1 else 1}
+            if cap.keep:
+                rec["x"] = np.array(x, dtype=float).copy()
+                rec["y"] = np.array(y, dtype=float).copy()
+                rec["weights"] = np.array(kwargs["weights"], dtype=float).copy() if kwargs.get("weights") is not None else None
+            cap.records.append(rec)
+            if cap.fault is not None:
+                cap.fault(i, rec, kwargs)
+            r = cap.orig_fit(slf, x, y, *args, **kwargs)
+            rec["coefficients"] = np.array(slf.coefficients, dtype=float).copy()
+            return r
+
+        def predict(slf, x, *args, **kwargs):
+            i = cap.n_pred
+            cap.n_pred += 1
+            r = cap.orig_predict(slf, x, *args, **kwargs)
+            if cap.stub is not None:
+                r2 = cap.stub(i, x, r)
+                if r2 is not None:
+                    r = r2
+            rec = {"op": "predict", "i": i, "n": int(np.asarray(x).shape[0])}
+            if cap.keep:
+                rec["out"] = np.array(r, dtype=float).copy()
+            cap.records.append(rec)
+            return r
+
+        Q.fit = fit
+        Q.predict = predict
+        return self
+
+    def __exit__(self, *exc):
+        self.Q.fit = self.orig_fit
+        self.Q.predict = self.orig_predict
+        return False
